@@ -109,10 +109,20 @@ class SymbolCounter:
         self.freevars = set()
         self._counts = defaultdict(int)
         self._member_counts = defaultdict(int)
+        self._scopes = {}
 
     def previsit(self, node):
         if node.defines_local:
-            self._counts[node.name] += 1
+            # The name is bound in the body - not in the expression that
+            # produces its value.
+            self._scopes[id(node.body)] = node.name
+
+            # (Saving the outer binding of the same name reads it.)
+            if node.shadows_outer_binding and not self.is_bound(node.name):
+                self.freevars.add(node.name)
+
+        if id(node) in self._scopes:
+            self._counts[self._scopes[id(node)]] += 1
 
         if node.has_params and node.params:
             for param in node.params:
@@ -126,8 +136,8 @@ class SymbolCounter:
                 self.freevars.add(name)
 
     def postvisit(self, node):
-        if node.defines_local:
-            self._counts[node.name] -= 1
+        if id(node) in self._scopes:
+            self._counts[self._scopes.pop(id(node))] -= 1
 
         if node.has_params and node.params:
             for param in node.params:
